@@ -582,34 +582,80 @@ theorem nodup_drop {s ms : List Model} {m : Model}
     List.Sublist.append_left (List.sublist_cons_self m ms) s
   exact (hsub.map (·.path)).nodup hnd
 
-/-- the classification pass: keeps the invariant, loses nothing, only appends flags -/
-theorem classify_spec : ∀ (ms s : List Model) (u : List Path),
-    ((s ++ ms).map (·.path)).Nodup → (B → BaseHyp ms) → Good B s u →
-    Good B (classify ms s u).sorted (classify ms s u).upd ∧
-    ((classify ms s u).sorted ++ (classify ms s u).unres).Perm (s ++ ms) ∧
-    (classify ms s u).unres.Sublist ms := by
+theorem selfBase_false_iff {m : Model} : selfBase m = false ↔ m.path ∉ m.bases := by
+  simp [selfBase]
+
+/-- the loop only completes when no model of the batch names itself as base -/
+theorem classify_some_noSelf : ∀ (ms s : List Model) (u : List Path) (c : Cls),
+    classify ms s u = some c → ∀ m ∈ ms, m.path ∉ m.bases := by
   intro ms
   induction ms with
-  | nil => intro s u _ _ hg; simpa [classify] using hg
+  | nil => intro s u c _ m hm; cases hm
+  | cons x ms ih =>
+    intro s u c h m hm
+    simp only [classify] at h
+    split at h
+    · cases h
+    · rename_i hx
+      have hx' : x.path ∉ x.bases := selfBase_false_iff.mp (by simpa using hx)
+      have htail : ∀ m ∈ ms, m.path ∉ m.bases := by
+        split at h
+        · exact ih _ _ c h
+        · obtain ⟨c0, hc0, _⟩ := Option.map_eq_some_iff.mp h
+          exact ih _ _ c0 hc0
+      rcases List.mem_cons.mp hm with rfl | hm
+      · exact hx'
+      · exact htail m hm
+
+theorem classify_isSome : ∀ (ms s : List Model) (u : List Path), (∀ m ∈ ms, m.path ∉ m.bases) →
+    ∃ c, classify ms s u = some c := by
+  intro ms
+  induction ms with
+  | nil => intro s u _; exact ⟨_, rfl⟩
+  | cons x ms ih =>
+    intro s u h
+    have hx : selfBase x = false := selfBase_false_iff.mpr (h x (List.mem_cons_self ..))
+    have ht : ∀ m ∈ ms, m.path ∉ m.bases := fun m hm => h m (List.mem_cons_of_mem _ hm)
+    simp only [classify, hx, Bool.false_eq_true, if_false]
+    split
+    · exact ih _ _ ht
+    · obtain ⟨c, hc⟩ := ih s u ht
+      exact ⟨_, by rw [hc]; rfl⟩
+
+/-- the classification pass: keeps the invariant, loses nothing, only appends flags -/
+theorem classify_spec : ∀ (ms s : List Model) (u : List Path) (c : Cls),
+    ((s ++ ms).map (·.path)).Nodup → (B → BaseHyp ms) → Good B s u → classify ms s u = some c →
+    Good B c.sorted c.upd ∧ (c.sorted ++ c.unres).Perm (s ++ ms) ∧ c.unres.Sublist ms := by
+  intro ms
+  induction ms with
+  | nil =>
+    intro s u c _ _ hg h
+    simp only [classify, Option.some.injEq] at h
+    subst h
+    simpa using hg
   | cons m ms ih =>
-    intro s u hnd hbh hg
+    intro s u c hnd hbh hg h
     have hbh' : B → BaseHyp ms := fun hB => (hbh hB).sub (fun x hx => List.mem_cons_of_mem _ hx)
-    simp only [classify, classifyStep_eq]
-    by_cases hp : (pending s m).isEmpty = true
-    · simp only [hp, if_true]
-      rw [dictSet_fresh (nodup_fresh hnd)]
-      have hg' : Good B (s ++ [m]) (if m.refs.contains m.path then u ++ [m.path] else u) := by
-        apply good_snoc
-        · apply hg.mono; intro p hp'; split <;> simp [hp']
-        · exact okAt_of_pending_nil
-            (fun hB => ⟨(hbh hB).wf m (List.mem_cons_self ..), (hbh hB).noSelf m (List.mem_cons_self ..)⟩) hp
-      obtain ⟨h1, h2, h3⟩ := ih (s ++ [m]) _ (nodup_shift hnd) hbh' hg'
-      refine ⟨h1, ?_, h3.cons _⟩
-      simpa using h2
-    · simp only [hp]
-      obtain ⟨h1, h2, h3⟩ := ih s u (nodup_drop hnd) hbh' hg
-      refine ⟨h1, ?_, h3.cons_cons _⟩
-      exact (List.perm_middle).trans ((List.Perm.cons m h2).trans List.perm_middle.symm)
+    simp only [classify] at h
+    split at h
+    · cases h
+    · rw [classifyStep_eq] at h
+      by_cases hp : (pending s m).isEmpty = true
+      · simp only [hp, if_true] at h
+        rw [dictSet_fresh (nodup_fresh hnd)] at h
+        have hg' : Good B (s ++ [m]) (if m.refs.contains m.path then u ++ [m.path] else u) := by
+          apply good_snoc
+          · apply hg.mono; intro p hp'; split <;> simp [hp']
+          · exact okAt_of_pending_nil
+              (fun hB => ⟨(hbh hB).wf m (List.mem_cons_self ..), (hbh hB).noSelf m (List.mem_cons_self ..)⟩) hp
+        obtain ⟨h1, h2, h3⟩ := ih (s ++ [m]) _ c (nodup_shift hnd) hbh' hg' h
+        refine ⟨h1, ?_, h3.cons _⟩
+        simpa using h2
+      · simp only [hp] at h
+        obtain ⟨c0, hc0, rfl⟩ := Option.map_eq_some_iff.mp h
+        obtain ⟨h1, h2, h3⟩ := ih s u c0 (nodup_drop hnd) hbh' hg hc0
+        refine ⟨h1, ?_, h3.cons_cons _⟩
+        exact (List.perm_middle).trans ((List.Perm.cons m h2).trans List.perm_middle.symm)
 
 theorem bubble_spec : ∀ (f : Nat) (l fx : List Model), bubble f l = some fx →
     bubblePass fx = fx ∧ fx.Perm l := by
@@ -730,54 +776,88 @@ theorem sortGo_spec : ∀ (rc : Nat) (ms s : List Model) (u : List Path) (out : 
   induction rc with
   | zero =>
     intro ms s u out hnd hbh hg h
-    obtain ⟨h1, h2, h3⟩ := classify_spec ms s u hnd hbh hg
     simp only [sortGo] at h
     split at h
-    · rename_i he
-      cases h
-      have : (classify ms s u).unres = [] := by simpa using he
-      rw [this] at h2
-      exact ⟨h1, by simpa using h2⟩
-    · obtain ⟨g1, g2⟩ := finish_spec _ out (((h2.map (·.path)).nodup_iff).mpr hnd)
-        (fun hB => (hbh hB).sub (fun m hm => h3.subset hm)) h1 h
-      exact ⟨g1, g2.trans h2⟩
-  | succ rc ih =>
-    intro ms s u out hnd hbh hg h
-    obtain ⟨h1, h2, h3⟩ := classify_spec ms s u hnd hbh hg
-    simp only [sortGo] at h
-    split at h
-    · rename_i he
-      cases h
-      have : (classify ms s u).unres = [] := by simpa using he
-      rw [this] at h2
-      exact ⟨h1, by simpa using h2⟩
-    · split at h
-      · obtain ⟨g1, g2⟩ := ih _ _ _ out (((h2.map (·.path)).nodup_iff).mpr hnd)
-          (fun hB => (hbh hB).sub (fun m hm => h3.subset hm)) h1 h
-        exact ⟨g1, g2.trans h2⟩
+    · cases h
+    · rename_i c hc
+      obtain ⟨h1, h2, h3⟩ := classify_spec ms s u c hnd hbh hg hc
+      split at h
+      · rename_i he
+        cases h
+        have : c.unres = [] := by simpa using he
+        rw [this] at h2
+        exact ⟨h1, by simpa using h2⟩
       · obtain ⟨g1, g2⟩ := finish_spec _ out (((h2.map (·.path)).nodup_iff).mpr hnd)
           (fun hB => (hbh hB).sub (fun m hm => h3.subset hm)) h1 h
         exact ⟨g1, g2.trans h2⟩
+  | succ rc ih =>
+    intro ms s u out hnd hbh hg h
+    simp only [sortGo] at h
+    split at h
+    · cases h
+    · rename_i c hc
+      obtain ⟨h1, h2, h3⟩ := classify_spec ms s u c hnd hbh hg hc
+      split at h
+      · rename_i he
+        cases h
+        have : c.unres = [] := by simpa using he
+        rw [this] at h2
+        exact ⟨h1, by simpa using h2⟩
+      · split at h
+        · obtain ⟨g1, g2⟩ := ih _ _ _ out (((h2.map (·.path)).nodup_iff).mpr hnd)
+            (fun hB => (hbh hB).sub (fun m hm => h3.subset hm)) h1 h
+          exact ⟨g1, g2.trans h2⟩
+        · obtain ⟨g1, g2⟩ := finish_spec _ out (((h2.map (·.path)).nodup_iff).mpr hnd)
+            (fun hB => (hbh hB).sub (fun m hm => h3.subset hm)) h1 h
+          exact ⟨g1, g2.trans h2⟩
+
+/-- a model that names itself as base makes the function raise, at once -/
+theorem sortGo_ok_noSelf (rc : Nat) (ms s : List Model) (u : List Path) (out : Out)
+    (h : sortGo rc ms s u = .ok out) : ∀ m ∈ ms, m.path ∉ m.bases := by
+  cases rc with
+  | zero =>
+    simp only [sortGo] at h
+    split at h
+    · cases h
+    · rename_i c hc; exact classify_some_noSelf ms s u c hc
+  | succ rc =>
+    simp only [sortGo] at h
+    split at h
+    · cases h
+    · rename_i c hc; exact classify_some_noSelf ms s u c hc
+
+theorem sortGo_selfBase (rc : Nat) (ms s : List Model) (u : List Path)
+    (h : ∃ m ∈ ms, m.path ∈ m.bases) : sortGo rc ms s u = .error .circularBases := by
+  have hnone : classify ms s u = none := by
+    cases hc : classify ms s u with
+    | none => rfl
+    | some c =>
+      obtain ⟨m, hm, hb⟩ := h
+      exact absurd hb (classify_some_noSelf ms s u c hc m hm)
+  cases rc <;> simp [sortGo, hnone]
 
 /-! ### the recursion: `recursion_count` never runs out before the work does -/
 
-theorem classify_unres_length : ∀ (ms s : List Model) (u : List Path),
-    (classify ms s u).unres.length ≤ ms.length ∧
-    ((classify ms s u).unres.length = ms.length → (classify ms s u).sorted = s) := by
+theorem classify_unres_length : ∀ (ms s : List Model) (u : List Path) (c : Cls),
+    classify ms s u = some c →
+    c.unres.length ≤ ms.length ∧ (c.unres.length = ms.length → c.sorted = s) := by
   intro ms
   induction ms with
-  | nil => intro s u; simp [classify]
+  | nil => intro s u c h; simp only [classify, Option.some.injEq] at h; subst h; simp
   | cons m ms ih =>
-    intro s u
-    simp only [classify]
-    split
-    · rename_i s' u' _
-      have := (ih s' u').1
-      simp only [List.length_cons]
-      exact ⟨by omega, by omega⟩
-    · have := ih s u
-      simp only [List.length_cons]
-      exact ⟨by omega, fun h => this.2 (by omega)⟩
+    intro s u c h
+    simp only [classify] at h
+    split at h
+    · cases h
+    · split at h
+      · rename_i s' u' _
+        have := (ih s' u' c h).1
+        simp only [List.length_cons]
+        exact ⟨by omega, by omega⟩
+      · obtain ⟨c0, hc0, rfl⟩ := Option.map_eq_some_iff.mp h
+        have := ih s u c0 hc0
+        simp only [List.length_cons]
+        exact ⟨by omega, fun h => this.2 (by omega)⟩
 
 /-- one more unit of `recursion_count` changes nothing once it is at least the number of models -/
 theorem sortGo_succ : ∀ (rc : Nat) (ms s : List Model) (u : List Path), ms.length ≤ rc →
@@ -791,21 +871,25 @@ theorem sortGo_succ : ∀ (rc : Nat) (ms s : List Model) (u : List Path), ms.len
     simp [sortGo, classify]
   | succ rc ih =>
     intro ms s u h
-    have hl := classify_unres_length ms s u
     rw [sortGo]
     conv => rhs; rw [sortGo]
-    split
-    · rfl
-    · split
-      · rename_i hne
-        apply ih
-        have : (classify ms s u).unres.length ≠ ms.length := by
-          intro heq
-          have := hl.2 heq
-          rw [this] at hne
-          simp at hne
-        omega
+    cases hc : classify ms s u with
+    | none => rfl
+    | some c =>
+      have hl := classify_unres_length ms s u c hc
+      simp only
+      split
       · rfl
+      · split
+        · rename_i hne
+          apply ih
+          have : c.unres.length ≠ ms.length := by
+            intro heq
+            have := hl.2 heq
+            rw [this] at hne
+            simp at hne
+          omega
+        · rfl
 
 theorem sortGo_fuel (ms s : List Model) (u : List Path) : ∀ k,
     sortGo (ms.length + k) ms s u = sortGo ms.length ms s u := by
@@ -822,17 +906,20 @@ theorem Acyclic.sublist {l l' : List Model} (h : Acyclic l) (hs : l'.Sublist l) 
   refine ⟨rank, fun m hm b hb hbn => hr m (hs.subset hm) b hb ?_⟩
   exact (hs.map (·.path)).subset hbn
 
-theorem classify_unres_sublist : ∀ (ms s : List Model) (u : List Path),
-    (classify ms s u).unres.Sublist ms := by
+theorem classify_unres_sublist : ∀ (ms s : List Model) (u : List Path) (c : Cls),
+    classify ms s u = some c → c.unres.Sublist ms := by
   intro ms
   induction ms with
-  | nil => intro s u; simp [classify]
+  | nil => intro s u c h; simp only [classify, Option.some.injEq] at h; subst h; simp
   | cons m ms ih =>
-    intro s u
-    simp only [classify]
-    split
-    · exact (ih _ _).cons _
-    · exact (ih _ _).cons_cons _
+    intro s u c h
+    simp only [classify] at h
+    split at h
+    · cases h
+    · split at h
+      · exact (ih _ _ c h).cons _
+      · obtain ⟨c0, hc0, rfl⟩ := Option.map_eq_some_iff.mp h
+        exact (ih _ _ c0 hc0).cons_cons _
 
 theorem circular_error (names : List Path) : ∀ (todo s : List Model) (u : List Path) (e : Err),
     circular names todo s u = .error e → e = .unresolved := by
@@ -867,15 +954,17 @@ theorem sortGo_ne_circular : ∀ (rc : Nat) (ms s : List Model) (u : List Path),
   induction rc with
   | zero =>
     intro ms s u hnd hac
-    have hsub := classify_unres_sublist ms s u
-    simp only [sortGo]
+    obtain ⟨c, hc⟩ := classify_isSome ms s u hac.noSelfBase
+    have hsub := classify_unres_sublist ms s u c hc
+    simp only [sortGo, hc]
     split
     · intro h; cases h
     · exact finish_ne_circular _ ((hsub.map (·.path)).nodup hnd) (hac.sublist hsub)
   | succ rc ih =>
     intro ms s u hnd hac
-    have hsub := classify_unres_sublist ms s u
-    simp only [sortGo]
+    obtain ⟨c, hc⟩ := classify_isSome ms s u hac.noSelfBase
+    have hsub := classify_unres_sublist ms s u c hc
+    simp only [sortGo, hc]
     split
     · intro h; cases h
     · split
@@ -923,8 +1012,8 @@ theorem bubble_cycle_none : ∀ f, bubble f [cycA, cycB] = none ∧ bubble f [cy
 
 /-! ### `__sort_models`: what holds when the swap loop stops -/
 
-theorem sweep_perm : ∀ (rest : List Named) (r : List (List Nat)) (cur : Named) (acc : List Named) (ch : Bool),
-    (sweep r cur acc ch rest).1.Perm (acc ++ cur :: rest) := by
+theorem sweep_perm (nm : List (List Nat)) : ∀ (rest : List Named) (r : List (List Nat)) (cur : Named) (acc : List Named) (ch : Bool),
+    (sweep nm r cur acc ch rest).1.Perm (acc ++ cur :: rest) := by
   intro rest
   induction rest with
   | nil => intro r cur acc ch; simp [sweep]
@@ -939,8 +1028,8 @@ theorem sweep_perm : ∀ (rest : List Named) (r : List (List Nat)) (cur : Named)
       rw [List.append_assoc]
       exact List.Perm.append_left acc (List.Perm.swap cur nxt rest)
 
-theorem sweep_changed : ∀ (rest : List Named) (r : List (List Nat)) (cur : Named) (acc : List Named),
-    (sweep r cur acc true rest).2 = true := by
+theorem sweep_changed (nm : List (List Nat)) : ∀ (rest : List Named) (r : List (List Nat)) (cur : Named) (acc : List Named),
+    (sweep nm r cur acc true rest).2 = true := by
   intro rest
   induction rest with
   | nil => intro r cur acc; rfl
@@ -953,11 +1042,11 @@ theorem sweep_changed : ∀ (rest : List Named) (r : List (List Nat)) (cur : Nam
 
 /-- a sweep that reports `changed = False` has left the list as it was and found the bases of
 every model but the last among the imported names and the class names before it -/
-theorem sweep_unchanged : ∀ (rest : List Named) (r : List (List Nat)) (cur : Named) (acc : List Named),
-    (sweep r cur acc false rest).2 = false →
-    (sweep r cur acc false rest).1 = acc ++ cur :: rest ∧
+theorem sweep_unchanged (nm : List (List Nat)) : ∀ (rest : List Named) (r : List (List Nat)) (cur : Named) (acc : List Named),
+    (sweep nm r cur acc false rest).2 = false →
+    (sweep nm r cur acc false rest).1 = acc ++ cur :: rest ∧
     ∀ p x q, cur :: rest = p ++ x :: q → q ≠ [] →
-      basesResolved ((p.map (·.name)).reverse ++ r) x = true := by
+      basesResolved nm ((p.map (·.name)).reverse ++ r) x = true := by
   intro rest
   induction rest with
   | nil =>
@@ -970,7 +1059,7 @@ theorem sweep_unchanged : ∀ (rest : List Named) (r : List (List Nat)) (cur : N
   | cons nxt rest ih =>
     intro r cur acc h
     simp only [sweep] at h ⊢
-    by_cases hres : basesResolved r cur = true
+    by_cases hres : basesResolved nm r cur = true
     · simp only [hres, if_true] at h ⊢
       obtain ⟨h1, h2⟩ := ih (cur.name :: r) nxt (acc ++ [cur]) h
       refine ⟨by rw [h1]; simp, ?_⟩
@@ -986,15 +1075,15 @@ theorem sweep_unchanged : ∀ (rest : List Named) (r : List (List Nat)) (cur : N
         have := h2 p x q hp hq
         simpa [List.append_assoc] using this
     · simp only [hres] at h
-      have := sweep_changed rest r cur (acc ++ [nxt])
+      have := sweep_changed nm rest r cur (acc ++ [nxt])
       simp at h
       rw [this] at h
       cases h
 
-theorem swapLoop_spec (imp : List (List Nat)) : ∀ (f : Nat) (l l' : List Named),
-    swapLoop imp f l = some l' →
+theorem swapLoop_spec (nm imp : List (List Nat)) : ∀ (f : Nat) (l l' : List Named),
+    swapLoop nm imp f l = some l' →
     l'.Perm l ∧ ∀ p x q, l' = p ++ x :: q → q ≠ [] →
-      basesResolved ((p.map (·.name)).reverse ++ imp) x = true := by
+      basesResolved nm ((p.map (·.name)).reverse ++ imp) x = true := by
   intro f
   induction f with
   | zero => intro l l' h; simp [swapLoop] at h
@@ -1008,8 +1097,8 @@ theorem swapLoop_spec (imp : List (List Nat)) : ∀ (f : Nat) (l l' : List Named
       intro p x q hp; cases p <;> cases hp
     | cons x xs =>
       simp only [swapLoop] at h
-      have hperm := sweep_perm xs imp x [] false
-      cases hsw : sweep imp x [] false xs with
+      have hperm := sweep_perm nm xs imp x [] false
+      cases hsw : sweep nm imp x [] false xs with
       | mk l1 ch =>
         rw [hsw] at h hperm
         cases ch with
@@ -1020,7 +1109,7 @@ theorem swapLoop_spec (imp : List (List Nat)) : ∀ (f : Nat) (l l' : List Named
         | false =>
           simp only [Bool.false_eq_true, if_false, Option.some.injEq] at h
           subst h
-          have hu := sweep_unchanged xs imp x [] (by rw [hsw])
+          have hu := sweep_unchanged nm xs imp x [] (by rw [hsw])
           rw [hsw] at hu
           refine ⟨by simpa using hperm, ?_⟩
           intro p y q hp hq
@@ -1034,9 +1123,9 @@ loop is a rotating queue behind a growing resolved prefix; acyclicity keeps a re
 queue, and each rotation brings the first ready model one step closer to the front. -/
 
 /-- the models of `P` pass one after the other, starting from the resolved names `r` -/
-def Passes : List (List Nat) → List Named → Prop
+def Passes (nm : List (List Nat)) : List (List Nat) → List Named → Prop
   | _, [] => True
-  | r, p :: P => basesResolved r p = true ∧ Passes (p.name :: r) P
+  | r, p :: P => basesResolved nm r p = true ∧ Passes nm (p.name :: r) P
 
 def resAfter (r : List (List Nat)) (P : List Named) : List (List Nat) := (P.map (·.name)).reverse ++ r
 
@@ -1044,8 +1133,8 @@ theorem resAfter_cons (r : List (List Nat)) (p : Named) (P : List Named) :
     resAfter (p.name :: r) P = resAfter r (p :: P) := by
   simp [resAfter]
 
-theorem passes_snoc : ∀ (P : List Named) (r : List (List Nat)) (y : Named), Passes r P →
-    basesResolved (resAfter r P) y = true → Passes r (P ++ [y]) := by
+theorem passes_snoc (nm : List (List Nat)) : ∀ (P : List Named) (r : List (List Nat)) (y : Named), Passes nm r P →
+    basesResolved nm (resAfter r P) y = true → Passes nm r (P ++ [y]) := by
   intro P
   induction P with
   | nil => intro r y _ h; exact ⟨by simpa [resAfter] using h, trivial⟩
@@ -1053,11 +1142,11 @@ theorem passes_snoc : ∀ (P : List Named) (r : List (List Nat)) (y : Named), Pa
     intro r y hp h
     exact ⟨hp.1, ih (p.name :: r) y hp.2 (by rw [resAfter_cons]; exact h)⟩
 
-theorem sweep_last (r : List (List Nat)) (y : Named) (acc : List Named) (ch : Bool) :
-    sweep r y acc ch [] = (acc ++ [y], ch) := rfl
+theorem sweep_last (nm r : List (List Nat)) (y : Named) (acc : List Named) (ch : Bool) :
+    sweep nm r y acc ch [] = (acc ++ [y], ch) := rfl
 
-theorem sweep_bad : ∀ (R : List Named) (r : List (List Nat)) (y : Named) (acc : List Named) (ch : Bool),
-    basesResolved r y = false → R ≠ [] → sweep r y acc ch R = (acc ++ R ++ [y], true) := by
+theorem sweep_bad (nm : List (List Nat)) : ∀ (R : List Named) (r : List (List Nat)) (y : Named) (acc : List Named) (ch : Bool),
+    basesResolved nm r y = false → R ≠ [] → sweep nm r y acc ch R = (acc ++ R ++ [y], true) := by
   intro R
   induction R with
   | nil => intro r y acc ch _ h; exact absurd rfl h
@@ -1071,9 +1160,9 @@ theorem sweep_bad : ∀ (R : List Named) (r : List (List Nat)) (y : Named) (acc 
       simp
 
 /-- a sweep walks through a passing prefix without touching it -/
-theorem sweep_prefix : ∀ (P : List Named) (r : List (List Nat)) (cur : Named) (acc : List Named)
-    (ch : Bool) (y : Named) (R : List Named), Passes r (cur :: P) →
-    sweep r cur acc ch (P ++ y :: R) = sweep (resAfter r (cur :: P)) y (acc ++ cur :: P) ch R := by
+theorem sweep_prefix (nm : List (List Nat)) : ∀ (P : List Named) (r : List (List Nat)) (cur : Named) (acc : List Named)
+    (ch : Bool) (y : Named) (R : List Named), Passes nm r (cur :: P) →
+    sweep nm r cur acc ch (P ++ y :: R) = sweep nm (resAfter r (cur :: P)) y (acc ++ cur :: P) ch R := by
   intro P
   induction P with
   | nil =>
@@ -1087,27 +1176,28 @@ theorem sweep_prefix : ∀ (P : List Named) (r : List (List Nat)) (cur : Named) 
     simp
 
 /-- the sweep of `P ++ y :: R` when `P` passes: it is decided at `y` -/
-theorem sweep_at (imp : List (List Nat)) (P : List Named) (y : Named) (R : List Named)
-    (hp : Passes imp P) :
+theorem sweep_at (nm imp : List (List Nat)) (P : List Named) (y : Named) (R : List Named)
+    (hp : Passes nm imp P) :
     ∃ x xs, P ++ y :: R = x :: xs ∧
-      sweep imp x [] false xs = sweep (resAfter imp P) y P false R := by
+      sweep nm imp x [] false xs = sweep nm (resAfter imp P) y P false R := by
   cases P with
   | nil => exact ⟨y, R, rfl, by simp [resAfter]⟩
   | cons p P =>
     refine ⟨p, P ++ y :: R, rfl, ?_⟩
-    rw [sweep_prefix P imp p [] false y R hp]
+    rw [sweep_prefix nm P imp p [] false y R hp]
     simp
 
-structure AllAvailable (imp : List (List Nat)) (l0 : List Named) : Prop where
-  avail : ∀ m ∈ l0, ∀ b ∈ m.bases, b ≠ m.name → b ∈ imp ∨ b ∈ l0.map (·.name)
-  rank : ∃ rank : List Nat → Nat, ∀ m ∈ l0, ∀ b ∈ m.bases, b ≠ m.name → b ∈ l0.map (·.name) →
+/-- inheritance among the classes of the module itself is acyclic (bases that are not classes of
+the module do not take part in `__sort_models`) -/
+def ModuleAcyclic (l0 : List Named) : Prop :=
+  ∃ rank : List Nat → Nat, ∀ m ∈ l0, ∀ b ∈ m.bases, b ≠ m.name → b ∈ l0.map (·.name) →
     rank b < rank m.name
 
 /-- a non-empty queue behind a passing prefix contains a ready model -/
-theorem exists_ready (imp : List (List Nat)) (l0 P Q : List Named) (hperm : (P ++ Q).Perm l0)
-    (hyp : AllAvailable imp l0) (hQ : Q ≠ []) :
-    ∃ A z B, Q = A ++ z :: B ∧ basesResolved (resAfter imp P) z = true := by
-  obtain ⟨rank, hrank⟩ := hyp.rank
+theorem exists_ready (nm imp : List (List Nat)) (l0 P Q : List Named) (hperm : (P ++ Q).Perm l0)
+    (hnm : ∀ b, b ∈ nm ↔ b ∈ l0.map (·.name)) (hyp : ModuleAcyclic l0) (hQ : Q ≠ []) :
+    ∃ A z B, Q = A ++ z :: B ∧ basesResolved nm (resAfter imp P) z = true := by
+  obtain ⟨rank, hrank⟩ := hyp
   -- a model of minimal rank in Q
   have hmin : ∃ z ∈ Q, ∀ z' ∈ Q, rank z.name ≤ rank z'.name := by
     clear hperm
@@ -1133,15 +1223,16 @@ theorem exists_ready (imp : List (List Nat)) (l0 P Q : List Named) (hperm : (P +
   obtain ⟨A, B, rfl⟩ := List.append_of_mem hz
   refine ⟨A, z, B, rfl, ?_⟩
   have hz0 : z ∈ l0 := hperm.mem_iff.mp (List.mem_append_right _ hz)
-  simp only [basesResolved, List.all_eq_true, Bool.or_eq_true, beq_iff_eq, List.contains_iff_mem]
+  simp only [basesResolved, List.all_eq_true, Bool.or_eq_true, beq_iff_eq, List.contains_iff_mem,
+    Bool.not_eq_true']
   intro b hb
-  by_cases hne : b = z.name
-  · exact Or.inl hne
-  · right
-    simp only [resAfter, List.mem_append, List.mem_reverse]
-    rcases hyp.avail z hz0 b hb hne with h | h
-    · exact Or.inr h
-    · left
+  by_cases hin : b ∈ nm
+  · by_cases hne : b = z.name
+    · exact Or.inl (Or.inr hne)
+    · right
+      simp only [resAfter, List.mem_append, List.mem_reverse]
+      left
+      have h := (hnm b).mp hin
       have hb0 := hrank z hz0 b hb hne h
       have : b ∈ (P ++ (A ++ z :: B)).map (·.name) := ((hperm.map (·.name)).mem_iff).mpr h
       rw [List.map_append, List.mem_append] at this
@@ -1150,19 +1241,22 @@ theorem exists_ready (imp : List (List Nat)) (l0 P Q : List Named) (hperm : (P +
       · obtain ⟨z', hz', rfl⟩ := List.mem_map.mp h
         have := hm z' hz'
         omega
+  · left; left
+    simpa using hin
 
 /-- main induction: queue length, then distance of the first ready model from the head -/
-theorem swapLoop_terminates_aux (imp : List (List Nat)) (l0 : List Named) (hyp : AllAvailable imp l0) :
-    ∀ (q : Nat) (P Q : List Named), Q.length = q → (P ++ Q).Perm l0 → Passes imp P →
-    ∃ f, (swapLoop imp f (P ++ Q)).isSome = true := by
+theorem swapLoop_terminates_aux (nm imp : List (List Nat)) (l0 : List Named)
+    (hnm : ∀ b, b ∈ nm ↔ b ∈ l0.map (·.name)) (hyp : ModuleAcyclic l0) :
+    ∀ (q : Nat) (P Q : List Named), Q.length = q → (P ++ Q).Perm l0 → Passes nm imp P →
+    ∃ f, (swapLoop nm imp f (P ++ Q)).isSome = true := by
   intro q
   induction q using Nat.strongRecOn with
   | _ q ihq =>
     -- inner statement, by induction on the position of a ready model
     have inner : ∀ (d : Nat) (P Q A : List Named) (z : Named) (B : List Named), Q.length = q →
-        (P ++ Q).Perm l0 → Passes imp P → Q = A ++ z :: B → A.length = d →
-        basesResolved (resAfter imp P) z = true →
-        ∃ f, (swapLoop imp f (P ++ Q)).isSome = true := by
+        (P ++ Q).Perm l0 → Passes nm imp P → Q = A ++ z :: B → A.length = d →
+        basesResolved nm (resAfter imp P) z = true →
+        ∃ f, (swapLoop nm imp f (P ++ Q)).isSome = true := by
       intro d
       induction d with
       | zero =>
@@ -1172,7 +1266,7 @@ theorem swapLoop_terminates_aux (imp : List (List Nat)) (l0 : List Named) (hyp :
         subst hQ
         -- the head is ready: it joins the prefix
         have := ihq B.length (by simp at hq; omega) (P ++ [z]) B rfl (by simpa using hperm)
-          (passes_snoc P imp z hp hz)
+          (passes_snoc nm P imp z hp hz)
         simpa using this
       | succ d ihd =>
         intro P Q A z B hq hperm hp hQ hA hz
@@ -1180,14 +1274,14 @@ theorem swapLoop_terminates_aux (imp : List (List Nat)) (l0 : List Named) (hyp :
         | nil => simp at hA
         | cons y A =>
           subst hQ
-          by_cases hy : basesResolved (resAfter imp P) y = true
+          by_cases hy : basesResolved nm (resAfter imp P) y = true
           · have := ihq (A ++ z :: B).length (by simp at hq ⊢; omega) (P ++ [y]) (A ++ z :: B) rfl
-              (by simpa using hperm) (passes_snoc P imp y hp hy)
+              (by simpa using hperm) (passes_snoc nm P imp y hp hy)
             simpa using this
-          · have hy' : basesResolved (resAfter imp P) y = false := by simpa using hy
+          · have hy' : basesResolved nm (resAfter imp P) y = false := by simpa using hy
             -- one sweep rotates `y` to the end
-            obtain ⟨x, xs, hx, hsw⟩ := sweep_at imp P y (A ++ z :: B) hp
-            rw [sweep_bad (A ++ z :: B) _ y P false hy' (by simp)] at hsw
+            obtain ⟨x, xs, hx, hsw⟩ := sweep_at nm imp P y (A ++ z :: B) hp
+            rw [sweep_bad nm (A ++ z :: B) _ y P false hy' (by simp)] at hsw
             have hrot : (P ++ ((A ++ z :: B) ++ [y])).Perm l0 := by
               refine (List.Perm.append_left P ?_).trans hperm
               simpa using (List.perm_append_comm (l₁ := A ++ z :: B) (l₂ := [y]))
@@ -1211,19 +1305,19 @@ theorem swapLoop_terminates_aux (imp : List (List Nat)) (l0 : List Named) (hyp :
         · simp [swapLoop, sweep]
         · rw [List.concat_eq_append] at hP'
           subst hP'
-          have hp' : Passes imp (p :: P'') := by
+          have hp' : Passes nm imp (p :: P'') := by
             clear hperm ihq inner hq
-            have : ∀ (P : List Named) (r : List (List Nat)) (y : Named), Passes r (P ++ [y]) → Passes r P := by
+            have : ∀ (P : List Named) (r : List (List Nat)) (y : Named), Passes nm r (P ++ [y]) → Passes nm r P := by
               intro P
               induction P with
               | nil => intro r y _; trivial
               | cons a P ih => intro r y h; exact ⟨h.1, ih _ _ h.2⟩
             exact this (p :: P'') imp y hp
-          have := sweep_prefix P'' imp p [] false y [] hp'
+          have := sweep_prefix nm P'' imp p [] false y [] hp'
           simp only [List.append_nil, swapLoop]
           rw [this, sweep_last]
           simp
-    · obtain ⟨A, z, B, hQe, hz⟩ := exists_ready imp l0 P Q hperm hyp hQ
+    · obtain ⟨A, z, B, hQe, hz⟩ := exists_ready nm imp l0 P Q hperm hnm hyp hQ
       exact inner A.length P Q A z B hq hperm hp hQe rfl hz
 
 /-! ### `__sort_models` on a 2-cycle -/
@@ -1231,16 +1325,17 @@ theorem swapLoop_terminates_aux (imp : List (List Nat)) (l0 : List Named) (hyp :
 def nmA : Named := ⟨[65], [[66]]⟩
 def nmB : Named := ⟨[66], [[65], [66]]⟩
 
-theorem swapLoop_cycle_none : ∀ f, swapLoop [] f [nmA, nmB] = none ∧ swapLoop [] f [nmB, nmA] = none := by
+theorem swapLoop_cycle_none : ∀ f, swapLoop [[65], [66]] [] f [nmA, nmB] = none ∧
+    swapLoop [[65], [66]] [] f [nmB, nmA] = none := by
   intro f
   induction f with
   | zero => exact ⟨rfl, rfl⟩
   | succ f ih =>
     constructor
-    · have h : sweep [] nmA [] false [nmB] = ([nmB, nmA], true) := by decide
+    · have h : sweep [[65], [66]] [] nmA [] false [nmB] = ([nmB, nmA], true) := by decide
       simp only [swapLoop, h]
       exact ih.2
-    · have h : sweep [] nmB [] false [nmA] = ([nmA, nmB], true) := by decide
+    · have h : sweep [[65], [66]] [] nmB [] false [nmA] = ([nmA, nmB], true) := by decide
       simp only [swapLoop, h]
       exact ih.1
 
